@@ -54,6 +54,8 @@ func spin(n uint64) uint64 {
 
 var spinSink atomic.Uint64
 
+var entryDeadline = deadline
+
 // runEntry runs c.Rounds rounds; in each, c.Callers goroutines start calling
 // on a fresh connection at a starting gun and the connection is failed a
 // moment (0..c.Cut spin iterations, a function of c.Perturb and the round)
@@ -202,8 +204,8 @@ func entryRound(c *Case, round int) (inAtFailure int64, err error) {
 	go func() { wg.Wait(); close(done) }()
 	select {
 	case <-done:
-	case <-time.After(deadline):
-		return inAtFailure, hangErr(fmt.Sprintf("%d callers were entering Rpc when the connection failed (%s; %d calls in Rpc at that moment, %d calls returned so far): not all of them returned within %v", c.Callers, c.Fail, inAtFailure, atomic.LoadInt64(&calls), deadline))
+	case <-time.After(entryDeadline):
+		return inAtFailure, hangErr(fmt.Sprintf("%d callers were entering Rpc when the connection failed (%s; %d calls in Rpc at that moment, %d calls returned so far): not all of them returned within %v", c.Callers, c.Fail, inAtFailure, atomic.LoadInt64(&calls), entryDeadline))
 	}
 	hx.ExtraAdd("entry_calls", atomic.LoadInt64(&calls))
 	if e, _ := bad.Load().(error); e != nil {
@@ -217,8 +219,8 @@ func entryRound(c *Case, round int) (inAtFailure int64, err error) {
 		if r.err == nil {
 			return inAtFailure, fmt.Errorf("a call made after the failure (%s) returned success", c.Fail)
 		}
-	case <-time.After(deadline):
-		return inAtFailure, hangErr(fmt.Sprintf("a call made after the failure (%s) and after all concurrent callers had returned did not return within %v", c.Fail, deadline))
+	case <-time.After(entryDeadline):
+		return inAtFailure, hangErr(fmt.Sprintf("a call made after the failure (%s) and after all concurrent callers had returned did not return within %v", c.Fail, entryDeadline))
 	}
 	return inAtFailure, nil
 }
@@ -228,6 +230,14 @@ func entryRound(c *Case, round int) (inAtFailure int64, err error) {
 // case is the replay file.
 func TestPropEntryStorm(t *testing.T) {
 	var failed error
+	// (in a sub-test: the parent is failed below, after the violation has been recorded with its case)
+	t.Run("draw", func(t *testing.T) { entryDraw(t, &failed) })
+	if failed != nil {
+		t.Fatalf("%v", failed)
+	}
+}
+
+func entryDraw(t *testing.T, failedp *error) {
 	hx.Check(t, "entrystorm", hx.N(24, 110), func(t *rapid.T) {
 		c := &Case{Calls: []string{"entry"},
 			Dotu:    rapid.Bool().Draw(t, "dotu"),
@@ -243,15 +253,12 @@ func TestPropEntryStorm(t *testing.T) {
 			Spread:  rapid.SampledFrom([]int{0, 0, 2000, 50000}).Draw(t, "spread"),
 			After:   rapid.IntRange(1, 3).Draw(t, "after"),
 		}
-		if failed != nil {
+		if *failedp != nil {
 			return
 		}
 		if err := execute("entrystorm", c); err != nil {
-			failed = err
+			*failedp = err
 			hx.Violation("entrystorm", c, err.Error())
 		}
 	})
-	if failed != nil {
-		t.Fatalf("%v", failed)
-	}
 }
